@@ -420,6 +420,12 @@ func (VaralignSplitter) parseVarnameOp(parser *MkParser, initial bool) (string, 
 
 	mark := lexer.Mark()
 	_ = parser.mklex.Varname()
+	// In the raw text, a '#' in the parameter of the variable name
+	// is still escaped as '\#', unlike in the parsed line.
+	for lexer.SkipString("\\#") {
+		for lexer.NextBytesSet(VarparamBytes) != "" || parser.mklex.Expr() != nil {
+		}
+	}
 	lexer.SkipHspace()
 	ok, _ := parser.Op()
 	assert(ok)
